@@ -952,4 +952,57 @@ referred to under the de-duplicated one -/
 example : freeName [⟨1, "User_w", some []⟩] "User_w" = some "User_w_1" ∧ Reg.nameOf [⟨1, "User_w", some []⟩] 2 = none := by
   decide
 
+/-! ## glue the generator and the published values depend on -/
+
+/-- whatever spelling `Field(deprecated=…)` takes (`True`, or the name of the replacing field), the document carries
+the boolean the meta-data vocabulary asks for — `bool(deprecated)`, field.py — or nothing -/
+theorem C13_deprecated_published_as_bool (r : RawField) :
+    lookup "deprecated" (fieldExtras (normField r)) =
+      (if r.deprecated.truthy then some (.bool true) else none) := by
+  unfold fieldExtras
+  simp only [lookup_append]
+  have h1 : ∀ o, lookup "deprecated" (optStr "title" o) = none := fun o => lookup_optStr_ne _ _ o (by decide)
+  have h2 : ∀ o, lookup "deprecated" (optStr "description" o) = none := fun o => lookup_optStr_ne _ _ o (by decide)
+  rw [h1, h2]
+  have hd : (normField r).deprecated = r.deprecated.truthy := rfl
+  rw [hd]
+  unfold deprecatedSeg
+  by_cases h : r.deprecated.truthy = true
+  · simp [h, lookup]
+  · have h' : r.deprecated.truthy = false := by simpa using h
+    have h4 : ∀ m, lookup "deprecated" (modeSeg m) = none := by
+      intro m; unfold modeSeg; split <;> simp [lookup]
+    have h5 : ∀ e, lookup "deprecated" (exampleSeg e) = none := by
+      intro e; unfold exampleSeg; split <;> simp [lookup]
+    have h6 : ∀ a l, lookup "deprecated" (aliasSeg a l) = none := by
+      intro a l; unfold aliasSeg; split <;> simp [lookup]
+    simp [h', lookup, h4, h5, h6]
+
+/-- the string form in the document itself would not be a schema: the restricted metaschema (like the 2020-12
+meta-data vocabulary) wants a boolean -/
+theorem C13_wf_rejects_string_deprecated :
+    wf (.obj [("type", .str "integer"), ("deprecated", .str "email")]) = false := by decide
+
+theorem jsUnsafe_zero (e : Nat) : jsUnsafe ⟨0, e⟩ = false := by
+  have hp : (0 : Int) < 10 ^ e := Int.pow_pos (by decide)
+  simp only [jsUnsafe, Num.lt, Num.ofInt, MAX_SAFE, Bool.or_eq_false_iff]
+  constructor <;> (apply decide_eq_false; omega)
+
+/-- `from_decimal` (encode.py): a zero `Decimal` is a number whatever its exponent (`Decimal('0.00')`, `'-0.0'`,
+`'0E-7'` — what `decimal_places` padding produces from 0): the sub-normal test is guarded by `data and …` -/
+theorem C13_zero_decimal_is_number (e : Nat) (s : String) : encode (.dec ⟨0, e⟩ s) = .num ⟨0, e⟩ := by
+  have : decAsString ⟨0, e⟩ = false := by
+    simp [decAsString, jsUnsafe_zero, decTiny]
+  rw [encode.eq_def]
+  simp [this]
+
+/-- … hence it validates against the schema of a `Decimal` type, for every exponent -/
+theorem C13_zero_decimal_validates (C : Ctx) (gm : Option Char) (e : Nat) (s : String) :
+    validate C (generate ⟨true, gm⟩ (.plain .decimal)) (encode (.dec ⟨0, e⟩ s)) = true := by
+  rw [C13_zero_decimal_is_number]
+  unfold generate
+  rw [validate_obj, gen.eq_def]
+  simp [plainSchema, getFormat, firstCover, FORMAT_MAP, covers, optStr, validateKws_cons, validateKws_nil, validateEntry,
+    checkSimple, checkType, typeIs, getPrimitive, PRIMITIVE_MAP, DEFAULT_PRIMITIVE]
+
 end Utv.C13
